@@ -82,7 +82,7 @@ def hashOf (alg : String) : Option HashAlg :=
 def atHashOK (accessToken : String) (c : Claims) (alg : String) : Bool :=
   c.atHash == "" ||
     match hashOf alg with
-    | some h => c.atHash == Hand.HashString 0 h accessToken true
+    | some h => c.atHash == Hand.leftHalfHash h accessToken
     | none => false
 
 /-- what was observed: `some claims` = accepted and these claims were returned -/
